@@ -128,6 +128,12 @@ func remoteReadAt(client *http.Client, url string, p []byte, off int64) (n int, 
 		return 0, err
 	}
 	defer resp.Body.Close()
+	// Only a partial-content response (or a full response when reading from the start)
+	// carries the requested bytes; anything else (error pages, ignored Range header) must
+	// not be returned, nor cached, as file content.
+	if resp.StatusCode != http.StatusPartialContent && !(resp.StatusCode == http.StatusOK && off == 0) {
+		return 0, fmt.Errorf("unexpected status code %d for range request at offset %d", resp.StatusCode, off)
+	}
 	{
 		n, err := io.ReadFull(resp.Body, p)
 		if err != nil {
